@@ -193,7 +193,7 @@ SCALARS = {
     'long long': 'long long', 'unsigned long long': 'unsigned long long', 'long': 'long',
     'double': 'double', 'float': 'float', 'void': 'void', 'size_t': 'size_t', 'unsigned char': 'unsigned char',
     'captype': 'unsigned', 'short': 'short', 'unsigned short': 'unsigned short',
-    'string::size_type': 'size_t', 'size_type': 'size_t', 'long double': 'long double',
+    'string::size_type': 'size_t', 'flag': 'int', 'size_type': 'size_t', 'long double': 'long double',
 }
 
 
@@ -251,7 +251,7 @@ def map_type(cpptype, real='double', classes=()):
         base = 'vvec_i'
     elif re.match(r'^[A-Z]\w*(::\w+)?$', t):
         base = 'struct ' + t.replace('::', '_')
-    elif t in ('mask', 'captype', 'flag', 'component', 'convention', 'zonespec', 'aux'):
+    elif t in ('mask', 'captype', 'component', 'convention', 'zonespec', 'aux'):
         base = 'unsigned'
     else:
         raise ExtractError('unsupported type %r' % cpptype)
@@ -388,6 +388,7 @@ class ClassInfo:
         self.consts = OrderedDict()   # name -> (ctype, expr or None)   static const(expr) scalars / enums
         self.members = OrderedDict()  # name -> (cpptype, array)
         self.typedefs = {}
+        self.enum_names = []
 
 
 class MethodInfo:
@@ -458,6 +459,8 @@ def parse_class(header_clean, cls, real='double'):
         if re.match(r'^enum\b', t):
             m = re.match(r'enum\s*(\w*)\s*\{(.*)\}', t, re.S)
             if m:
+                if m.group(1):
+                    ci.enum_names.append(m.group(1))
                 prev = None
                 for e in split_top(m.group(2)):
                     e = e.strip()
@@ -623,13 +626,7 @@ class Translator:
                 self.report.dropped.append('message: ' + re.sub(r'\s+', ' ', expr.strip())[:200])
                 # R7b: arithmetic conversions inside the dropped message are still evaluated (and discarded),
                 # so that undefined behaviour while building the message is not hidden by the rule
-                keep = []
-                for cm in re.finditer(r'(?<![\w.>])int\s*\(', expr):
-                    ce = match_close(expr, cm.end() - 1)
-                    inner = expr[cm.end():ce]
-                    if re.search(r'[a-zA-Z_]', inner) and not re.search(r'\b(size|length|str|substr)\b', inner):
-                        keep.append('(void)int(%s);' % ' '.join(inner.split()))
-                        self.report.hit('R7b.kept_conversion_in_message')
+                keep = self.kept_checks(expr)
                 out.append('{ %s VERIF_THROW(%s); }%s' % (' '.join(keep), self._ret_default(ret_ctype), nl))
             elif expr.strip() == '':
                 self.report.hit('R7.rethrow')
@@ -669,6 +666,82 @@ class Translator:
                 return j
             j += 1
         raise ExtractError('statement end not found')
+
+    # ---- what is kept of a dropped (message) expression: everything that could be undefined or throw
+    def kept_checks(self, expr, str_names=()):
+        keep = []
+        for cm in re.finditer(r'(?<![\w.>])int\s*\(', expr):
+            ce = match_close(expr, cm.end() - 1)
+            inner = expr[cm.end():ce]
+            if re.search(r'[a-zA-Z_]', inner) and not re.search(r'\b(size|length|str|substr)\b', inner):
+                keep.append('(void)int(%s);' % ' '.join(inner.split()))
+                self.report.hit('R7b.kept_conversion_in_message')
+        # std::string::substr(pos, n) throws std::out_of_range (not GeographicErr) if pos > size()
+        for sm in re.finditer(r'(?<![\w.>])(\w+)\s*\.\s*substr\s*\(', expr):
+            ce = match_close(expr, sm.end() - 1)
+            args = split_top(expr[sm.end():ce])
+            if args and args[0].strip():
+                keep.append('vstr_substr_check(%s, %s);' % (sm.group(1), ' '.join(args[0].split())))
+                self.report.hit('R7b.kept_substr_position_check')
+        # reads of the class's constant tables
+        for am in re.finditer(r'(?<![\w.>])([a-z]\w*_)\s*\[', expr):
+            ce = match_close(expr, am.end() - 1, '[', ']')
+            keep.append('(void)%s[%s];' % (am.group(1), ' '.join(expr[am.end():ce].split())))
+            self.report.hit('R7b.kept_table_read_in_message')
+        return keep
+
+    # ---- R7c: a local std::string that only carries an error message becomes a flag
+    def rule_message_strings(self, body):
+        for dm in list(re.finditer(r'(?<![\w.>])(?:std::)?string\s+(\w+)\s*;', body)):
+            nm = dm.group(1)
+            uses = [m for m in re.finditer(r'(?<![\w.>])' + nm + r'\b', body) if m.start() != dm.start(1)]
+            ok = True
+            for m in uses:
+                after = body[m.end():m.end() + 12].lstrip()
+                before = body[max(0, m.start() - 30):m.start()]
+                if after.startswith('=') and not after.startswith('=='):
+                    continue
+                if after.startswith('.empty'):
+                    continue
+                if re.search(r'GeographicErr\s*\(\s*$', before):
+                    continue
+                ok = False
+            if not ok:
+                continue
+            # assignments
+            while True:
+                m = re.search(r'(?<![\w.>])' + nm + r'\s*=(?!=)', body)
+                if not m:
+                    break
+                semi = self._stmt_end(body, m.end())
+                expr = body[m.end():semi]
+                keep = self.kept_checks(expr)
+                self.report.dropped.append('message: ' + re.sub(r'\s+', ' ', expr.strip())[:160])
+                body = body[:m.start()] + '{ %s %s_set = 1; }' % (' '.join(keep), nm) + '\n' * body[m.start():semi + 1].count('\n') + body[semi + 1:]
+                self.report.hit('R7c.message_string_assignment')
+            body = re.sub(r'(?<![\w.>])' + nm + r'\s*\.\s*empty\s*\(\s*\)', '(!%s_set)' % nm, body)
+            body = re.sub(r'(?<![\w.>])(?:std::)?string\s+' + nm + r'\s*;', 'int %s_set = 0;' % nm, body, count=1)
+            self.report.hit('R7c.message_string_local')
+        return body
+
+    # ---- R15: istringstream s(<string expr>); s >> v;   (number parsing of libstdc++ is not modelled)
+    def rule_istringstream(self, body):
+        pat = re.compile(r'(?<![\w.>])(?:std::)?istringstream\s+(\w+)\s*\(')
+        while True:
+            m = pat.search(body)
+            if not m:
+                break
+            pc = match_close(body, m.end() - 1)
+            arg = body[m.end():pc]
+            rest = re.match(r'\s*;\s*' + m.group(1) + r'\s*>>\s*(\w+)\s*;', body[pc + 1:])
+            if not rest:
+                raise ExtractError('istringstream use not of the form  istringstream s(x); s >> v;')
+            keep = self.kept_checks(arg)
+            end = pc + 1 + rest.end()
+            body = body[:m.start()] + '{ %s %s = verif_parse_real(); }' % (' '.join(keep), rest.group(1)) + '\n' * body[m.start():end].count('\n') + body[end:]
+            self.report.hit('R15.istringstream_extract')
+            self.report.dropped.append('number parsing: ' + re.sub(r'\s+', ' ', arg)[:120])
+        return body
 
     # ---- R8 misc removals
     def rule_remove(self, body):
@@ -750,7 +823,10 @@ class Translator:
             return '(%s)' % self._ctype_of(m.group(1))
         body = re.sub(r'\bstatic_cast\s*<\s*([\w: ]+?)\s*>\s*(?=\()', sc, body)
         # functional casts  T(expr)  -> (T)(expr) ; not when preceded by an identifier char / '.' (method)
-        names = '|'.join(CAST_TYPES)
+        extra = []
+        if self.cls and self.cls in self.classinfo:
+            extra = list(self.classinfo[self.cls].enum_names)
+        names = '|'.join(CAST_TYPES + extra)
         out = []
         i = 0
         pat = re.compile(r'(?<![\w.>])(unsigned\s+long\s+long|long\s+long|' + names + r')\s*\(')
